@@ -224,6 +224,31 @@ def check(shape, mocks, pvals, base):
                 out.append(('a task listed as real AND mocked is not mocked', f'value {got!r} (expected {exp_args!r}), runs {ns["RUNS"]}'))
         except Exception as e:  # noqa
             out.append(('TestChain fails when a task is listed as real and mocked', f'{type(e).__name__}: {str(e)[:200]}'))
+    # ---- a parameter object supplied as an instance is THE object the task works with (state changed after construction is seen)
+    if any(how == 'obj' for how, v in pvals):
+        for helper in ('create_test_task', 'TestChain', 'real'):
+            pr = params()
+            try:
+                if helper == 'real':
+                    data = {'tasks': [ns[f'Up{i}'] for i in range(len(mocks))] + [T]}
+                    data.update({f'c{i}': copy.deepcopy(m) if type(m) in TYPE_ANN else 0 for i, m in enumerate(mocks)})
+                    data.update(pr)
+                    if not all(type(m) in TYPE_ANN for m in mocks):
+                        continue
+                    t = Config(Path(base) / 'real_mut', name='real', data=data).chain()['tested']
+                else:
+                    mm = {ns[f'Up{i}'].slugname: copy.deepcopy(m) for i, m in enumerate(mocks)}
+                    t = create_test_task(T, input_tasks=mm, parameters=pr, base_dir=Path(base) / f'{helper}_mut') if helper == 'create_test_task' else \
+                        TestChain([T], mock_tasks=mm, parameters=pr, base_dir=Path(base) / f'{helper}_mut')['tested']
+                for k, v in pr.items():
+                    if isinstance(v, ns['Obj']):
+                        v.x = 'changed after construction'
+                got = t.value
+                want = {k: (['Obj', 'changed after construction'] if isinstance(v, list) and v and v[0] == 'Obj' else v) for k, v in exp_args.items()}
+                if got != want:
+                    out.append((f'{helper}: the task does not work with the supplied parameter object itself', f'object changed after construction: value {got!r}, expected {want!r}'))
+            except Exception as e:  # noqa
+                out.append((f'{helper} fails with a parameter object', f'{type(e).__name__}: {str(e)[:200]}'))
     # ---- missing input / missing required parameter are reported at construction
     if mocks:
         partial = {ns[f'Up{i}'].slugname: m for i, m in enumerate(mocks)}
@@ -242,6 +267,49 @@ def check(shape, mocks, pvals, base):
             out.append(('missing required parameter not reported by TestChain', f'without p{req[0]}'))
         except Exception:  # noqa
             pass
+    return out
+
+
+def default_dir_scenario():
+    """base_dir=None: results of real tasks stay usable for as long as the TASKS are used, not only while the TestChain object is referenced"""
+    import gc
+
+    from taskchain import Config, Task
+    from taskchain.data import DirData
+    from taskchain.utils.testing import TestChain
+
+    class Shards(Task):
+        def run(self) -> DirData:
+            d = self.get_data_object()
+            for i in range(3):
+                (d.dir / f'{i}.txt').write_text(str(i + 1))
+            return d
+
+    class Total(Task):
+        class Meta:
+            input_tasks = [Shards]
+
+        def run(self, shards) -> int:
+            return 100 + sum(int(p.read_text()) for p in sorted(shards.glob('*.txt')))
+
+    def tasks_only():
+        ch = TestChain([Shards, Total])
+        _ = ch['shards'].value          # computed while the chain object is alive
+        return ch['shards'], ch['total']
+    out = []
+    try:
+        sh, tot = tasks_only()
+        gc.collect()
+        got = tot.value
+        base = scratch.fresh('c19d')
+        real = Config(Path(base), name='r', data={'tasks': [Shards, Total]}).chain()['total'].value
+        scratch.drop(base)
+        import shutil
+        shutil.rmtree(str(sh.get_config().base_dir), ignore_errors=True)   # the helper's default directory is never removed by the library
+        if got != real:
+            out.append(('TestChain (default directory): value differs from the real chain once the chain object is gone', f'helper {got}, real chain {real}'))
+    except Exception as e:  # noqa
+        out.append(('TestChain (default directory) fails once the chain object is gone', f'{type(e).__name__}: {str(e)[:200]}'))
     return out
 
 
@@ -285,6 +353,11 @@ def run(tier, seed):
     res = Result()
     for r in pmap(_job, [sh[i::n] for i in range(n)]):
         res.merge(r)
+    import tcv
+    tcv.quiet_library()
+    res.add('evaluations')
+    for kind, msg in default_dir_scenario():
+        res.violations.append(Violation(kind, msg, {'default_dir': True}))
     res.coverage['task_shapes'] = len(sh)
     res.coverage['states'] = res.coverage['evaluations']
     res.coverage['traces_validated_against_impl'] = res.coverage['evaluations']
@@ -301,6 +374,8 @@ def replay(case):
     import tcv
 
     tcv.quiet_library()
+    if case.get('default_dir'):
+        return [Violation(k, m, case) for k, m in default_dir_scenario()]
     base = scratch.fresh('c19r')
     try:
         return [Violation(k, m, case) for k, m in check(case['shape'], case['mocks'], [tuple(p) for p in case['pvals']], base) if '(harness)' not in k]
